@@ -8,7 +8,7 @@ use memterm::byte_parser::ByteParser;
 use memterm::parser::Parser;
 use memterm::parser_listener::ParserListener;
 
-use crate::engine::{hash_of, lock, take_panic, CaseResult, Failure, Stats, Term};
+use crate::engine::{hash_of, lock, take_panic, CaseResult, Failure, PlainTerm, Stats, Term};
 use crate::ops::{apply_listener, pretty_op, Case, Op};
 use crate::recog::{normalise, Recog, Utf8Ref};
 use crate::snap::Snap;
@@ -50,7 +50,8 @@ pub fn run_c01(case: &Case) -> CaseResult {
     let mut stats = Stats::default();
     stats.cases = 1;
     let mut fails = Vec::new();
-    let mut term = Term::new(case.cols, case.lines, None);
+    // the Screen is attached to the parsers directly, as an embedder does
+    let mut term = PlainTerm::new(case.cols, case.lines);
     let mut used_str = false;
     let mut used_bytes = false;
     for (i, op) in case.ops.iter().enumerate() {
@@ -91,9 +92,9 @@ pub fn run_c01(case: &Case) -> CaseResult {
         for (k, probe) in probes.iter().enumerate() {
             let r = catch_unwind(AssertUnwindSafe(|| {
                 term.exec(probe);
-                let mut t = lock(&term.tee);
+                let mut t = term.lock();
                 let d = t.display();
-                (d, Snap::of(&t.screen))
+                (d, Snap::of(&t))
             }));
             match r {
                 Err(_) => {
@@ -205,9 +206,23 @@ pub fn run_c02(case: &Case) -> CaseResult {
         }
     }
     stats.evaluations += 1;
+    let last = case.ops.last().cloned().unwrap_or(Op::Bell);
+    // (1) state, with the Screen attached directly
+    if let (Ok(da), Ok(db)) = (PlainTerm::run(case.cols, case.lines, &case.ops), PlainTerm::run(case.cols, case.lines, &merged)) {
+        if let Some(d) = da.diff(&db, &[]) {
+            fails.push(fail(
+                "C02",
+                "chunking-state",
+                case.ops.len().saturating_sub(1),
+                &last,
+                format!("chunked vs whole feed (Screen attached directly): {}", d),
+                "",
+            ));
+        }
+    }
+    // (2) state and listener events through the logging listener
     let a = run_plain(&case.ops, case.cols, case.lines);
     let b = run_plain(&merged, case.cols, case.lines);
-    let last = case.ops.last().cloned().unwrap_or(Op::Bell);
     match (a, b) {
         (Ok((sa, la)), Ok((sb, lb))) => {
             if let Some(d) = sa.diff(&sb, &[]) {
